@@ -233,7 +233,9 @@ class Session:
         elif op == "recalculate":
             self.obj.recalculate(step[1] or None) if hexobj else self.obj.recalculate()
         elif op == "calculate_index":
-            if hexobj:
+            if hexobj and len(step) > 3 and step[3] == "default":
+                self.obj.calculate_index(step[1] or None)        # Hexital's default index (-1)
+            elif hexobj:
                 self.obj.calculate_index(step[1] or None, step[2])
             else:
                 self.obj.calculate_index(step[2])
